@@ -280,6 +280,34 @@ EncodersAccepted == c.tbl = "matrix" /\ c.out.alpha # "" /\ c.support = "rt" =>
 SerdeTotal == c.tbl = "matrix" /\ c.enc \in {"postcard", "json"} => c.support = "rt"
 
 ---------------------------------------------------------------------------
+(* Table "layout": the postcard wire form field by field, and the mutation layer over it
+   (truncate at each field boundary, flip one bit per field, extend by one byte).
+   Verdicts: "no" must be refused, "yes" must decode (to the mutated content), "point" decodes iff
+   the mutated 32 bytes are still a curve point, "either" is not decided by the property.  In every
+   case decoding is total, and whatever decodes must re-encode and decode to itself. *)
+Layout(t) == CASE t = "pk"    -> <<"key32">>
+               [] t = "sig"   -> <<"sig64">>
+               [] t = "caddr" -> <<"id_varint", "len_varint", "data">>
+               [] t = "taddr" -> <<"tag_varint", "payload">>
+               [] t = "eaddr" -> <<"key32", "count_varint", "elem", "elem">>
+LayoutTypes == {"pk", "sig", "caddr", "taddr", "eaddr"}
+Mutations == {"truncate", "flip", "extend"}
+\* opaque content: every bit pattern of the field is a value
+Opaque == {"sig64", "data"}
+MutVerdict(fname, m) ==
+  CASE m = "truncate" -> "no"                     \* a prefix that ends before the last field ends is incomplete
+    [] m = "extend"   -> "either"                 \* postcard::from_bytes leaves trailing bytes unread
+    [] m = "flip"     -> IF fname = "key32" THEN "point" ELSE IF fname \in Opaque THEN "yes" ELSE "either"
+LayoutCases == UNION {
+  { [tbl |-> "layout", type |-> t, field |-> i, fname |-> Layout(t)[i], nfields |-> Len(Layout(t)), mut |-> m,
+     verdict |-> MutVerdict(Layout(t)[i], m)] : i \in 1..Len(Layout(t)), m \in Mutations } : t \in LayoutTypes }
+LayoutWanted(x) == x.field <= Len(Layout(x.type)) /\ (x.mut = "extend" => x.field = Len(Layout(x.type)))
+LayoutRule == c.tbl = "layout" =>
+  /\ c.mut = "truncate" => c.verdict = "no"
+  /\ c.verdict = "yes" => c.mut = "flip" /\ c.fname \in Opaque
+  /\ c.fname = "key32" /\ c.mut = "flip" => c.verdict = "point"       \* OnlyPoints carries over to the wire form
+
+---------------------------------------------------------------------------
 CasesOf(T) == CASE T = "keystr"   -> {x \in KeyStrCases : KeyStrWanted(x)}
            [] T = "keybytes" -> {x \in KeyBytesCases : KeyBytesWanted(x)}
            [] T = "caddr"    -> CAddrCases
@@ -287,8 +315,9 @@ CasesOf(T) == CASE T = "keystr"   -> {x \in KeyStrCases : KeyStrWanted(x)}
            [] T = "caddrstr" -> {x \in CAddrStrCases : CAddrStrWanted(x)}
            [] T = "sig"      -> SigCases
            [] T = "matrix"   -> {x \in MatrixCases : MatrixWanted(x)}
+           [] T = "layout"   -> {x \in LayoutCases : LayoutWanted(x)}
            
-Tables == {"keystr", "keybytes", "caddr", "caddrbin", "caddrstr", "sig", "matrix"}
+Tables == {"keystr", "keybytes", "caddr", "caddrbin", "caddrstr", "sig", "matrix", "layout"}
 Cases == IF Table = "all" THEN UNION {CasesOf(t) : t \in Tables} ELSE CasesOf(Table)
 
 Init == c \in Cases
